@@ -307,7 +307,7 @@ Lemma fit_step_reject s a ok s' r :
   fit_step s a ok = (s', ThrowLogic r) -> s' = s /\ fit_check a = Reject r.
 Proof.
   unfold fit_step. destruct (fit_check a) eqn:E.
-  - destruct (fit_contract a); [destruct ok|]; intros H; inversion H.
+  - destruct (fit_contract a); [destruct s; [destruct ok|]|]; intros H; inversion H.
   - intros H; inversion H; subst; auto.
   - intros H; inversion H.
 Qed.
@@ -318,18 +318,27 @@ Proof. unfold fit_step. intros ->. reflexivity. Qed.
 Lemma fit_step_defined s a ok : snd (fit_step s a ok) <> Undefined.
 Proof.
   unfold fit_step. destruct (fit_check a) eqn:E; simpl.
-  - rewrite (accept_implies_contract a E). simpl. destruct ok; discriminate.
+  - rewrite (accept_implies_contract a E). simpl. destruct s; [destruct ok|]; discriminate.
   - discriminate.
   - exfalso. eapply checks_never_fault; eauto.
 Qed.
 
+(* whatever fails after the checks (populated target, solver) leaves the table as it was or empty — never half-built *)
+Lemma fit_step_runtime s a ok s' : fit_step s a ok = (s', ThrowRuntime) -> s' = s \/ s' = TEmpty.
+Proof.
+  unfold fit_step. destruct (fit_check a); [|intros H; inversion H|intros H; inversion H].
+  destruct (fit_contract a); [|intros H; inversion H].
+  destruct s; [destruct ok|]; intros H; inversion H; auto.
+Qed.
+
 Lemma fit_step_done s a ok s' :
-  fit_step s a ok = (s', Done) <-> fit_contract a = true /\ ok = true /\ s' = TFitted (orders a) (map fst (knotvecs a)).
+  fit_step s a ok = (s', Done) <->
+  fit_contract a = true /\ ok = true /\ s = TEmpty /\ s' = TFitted (orders a) (map fst (knotvecs a)).
 Proof.
   unfold fit_step. split.
   - destruct (fit_check a) eqn:E; [|intros H; inversion H|intros H; inversion H].
-    rewrite (accept_implies_contract a E). destruct ok; intros H; inversion H; auto.
-  - intros [Hc [-> ->]]. rewrite (contract_implies_accept a Hc), Hc. reflexivity.
+    rewrite (accept_implies_contract a E). destruct s; [destruct ok|]; intros H; inversion H; auto.
+  - intros [Hc [-> [-> ->]]]. rewrite (contract_implies_accept a Hc), Hc. reflexivity.
 Qed.
 
 (* ---- C wrapper ---- *)
